@@ -575,6 +575,7 @@ func (gen *Generator) GenerateInclude(args []Sexp) error {
 	var err error
 	var exps []Sexp
 
+	nfiles := 0
 	var sourceItem func(item Sexp, depth int) error
 
 	sourceItem = func(item Sexp, depth int) error {
@@ -614,7 +615,15 @@ func (gen *Generator) GenerateInclude(args []Sexp) error {
 			if err != nil {
 				return err
 			}
+			exps = gen.env.FilterArray(exps, RemoveCommentsFilter)
+			exps = gen.env.FilterArray(exps, RemoveEndsFilter)
 
+			// the include form has one value, that of its last
+			// file: drop the value of the file before this one.
+			if nfiles > 0 {
+				gen.AddInstruction(PopInstr(0))
+			}
+			nfiles++
 			err = gen.GenerateBegin(exps)
 			if err != nil {
 				return err
@@ -632,6 +641,10 @@ func (gen *Generator) GenerateInclude(args []Sexp) error {
 		if err != nil {
 			return err
 		}
+	}
+	if nfiles == 0 {
+		// e.g. (include []): still one value
+		gen.AddInstruction(PushInstr{SexpNull})
 	}
 
 	return nil
